@@ -13,6 +13,16 @@ CLAIMS = {
         "note": "A-real; _transformed_glyph_bounds (fontTools ControlBoundsPen/TransformPen) is an assumed contract, conformance-checked natively; A-fdiv: math.floor(v / q) on floats equals the real floor for |v| < 2^31; ufo2ft ClipList writer assumed.",
         "design_ref": "DESIGN.md section 4 C05",
     },
+    "C06": {
+        "text": "Partial (relational property decided through per-build contracts). Discharged for all inputs: try_reuse returns a donor iff picosvg reports a match whose affine fits Fixed and never when reuse is disabled; add_glyph registers under the normal form; _update_paint_glyph emits either a fresh glyph or the donor under (approximately) the reuse affine with solid fills kept, linear and radial gradients counter-transformed by exactly 'wrapper then inverse reuse affine' (cancellation lemma), un-reused iff that counter-transform does not fit Fixed. Known finding F9 (tolerance 0) is excluded by its witness class.",
+        "note": "picosvg normalize/affine_between are uninterpreted functions with assumed contracts (functional; an affine that maps donor to target within tolerance, invertible); SVGPath.apply_transform uninterpreted; _create_glyph assumed; non-singularity of the combined gradient transform assumed at the _decompose_uniform_transform call; OT-SVG reuse (<use>) is bounded-tier only; A-real.",
+        "design_ref": "DESIGN.md section 4 C06",
+    },
+    "C19": {
+        "text": "Partial. Discharged: try_reuse never declines a match picosvg reports (result is None iff reuse disabled, no donor with the same normal form, no affine, or affine outside Fixed); _update_paint_glyph takes a non-None reuse result unless the gradient counter-transform overflows. That picosvg's normal form is invariant under translation/rotation/reflection is an assumption about the dependency, checked in the bounded tier.",
+        "note": "picosvg normalize/affine_between assumed (uninterpreted); OT-SVG <use> creation bounded-tier only.",
+        "design_ref": "DESIGN.md section 4 C19",
+    },
     "C14": {
         "text": "ppem, pixel advance, horizontal centring, vertical placement within one pixel (two when nudged; for em <= 2*upem), the int8 nudge, format-17 record size and the contiguous offset table (loop invariant) are discharged for all inputs from the current source.",
         "note": "A-real; precondition bitmap height == bitmap_resolution (what the driver's resvg step produces); em > 2*upem is only covered by the general clause; fontTools CBDT/sbix writers and PIL's PNG size are assumed.",
